@@ -57,8 +57,14 @@ func (l *ledger) AcquireGzipWriter() *gzip.Writer {
 	l.acq(w, "gzip.Writer")
 	return w
 }
+
+// A released object is detached before it goes back to the real provider (a custom provider may
+// do anything with an object it owns again): whatever the framework still writes or reads through
+// it after the release is lost, so use-after-release shows up in the decoded body even without a
+// second request. The framework resets every object it acquires, so correct code is unaffected.
 func (l *ledger) ReleaseGzipWriter(w *gzip.Writer) {
 	l.rel(w, "gzip.Writer")
+	w.Reset(io.Discard)
 	l.inner.ReleaseGzipWriter(w)
 }
 func (l *ledger) AcquireGzipReader() *gzip.Reader {
@@ -68,6 +74,7 @@ func (l *ledger) AcquireGzipReader() *gzip.Reader {
 }
 func (l *ledger) ReleaseGzipReader(r *gzip.Reader) {
 	l.rel(r, "gzip.Reader")
+	r.Reset(bytes.NewReader(nil))
 	l.inner.ReleaseGzipReader(r)
 }
 func (l *ledger) AcquireZlibWriter() *zlib.Writer {
@@ -77,6 +84,7 @@ func (l *ledger) AcquireZlibWriter() *zlib.Writer {
 }
 func (l *ledger) ReleaseZlibWriter(w *zlib.Writer) {
 	l.rel(w, "zlib.Writer")
+	w.Reset(io.Discard)
 	l.inner.ReleaseZlibWriter(w)
 }
 
